@@ -147,6 +147,19 @@ def run_loads(col):
             col.add("C14.O3", "%s vector (%d extra fields)" % (cname, mixed), "value form of scale * values on the first field; rows of further fields are zero", not bad and tail_zero and r.shape == (n, 1), "; ".join(bad))
             tot = [sum((P(r[d * p + i, 0]) for p in range(ra.mesh.npoints)), ZERO) for i in range(d)]
             col.add("C14.O3", "%s resultant (%d extra fields)" % (cname, mixed), "nodal forces sum to density * acceleration * volume", all(is_zero(tot[i] - rho * b[i] * vol) for i in range(d)))
+        # ramped loads: items are created with integer zeros (a common idiom) and updated with the substep's values
+        newv = [Fraction(7, 2), Fraction(-5, 2)]
+        for cname, mod, kw in (("SolidBodyForce", "_solidbody_force", dict(values=[0, 0], scale=rho)), ("SolidBodyGravity", "_solidbody_gravity", dict(gravity=[0, 0], density=rho))):
+            cls = it.get("felupe.mechanics.%s:%s" % (mod, cname))
+
+            def chk(cls=cls, kw=kw):
+                item = it.call(cls, [fc], kw)
+                it.call(it.getattr(it.getattr(item, "assemble"), "vector"), [fc], {})
+                it.call_method(item, "update", [list(newv)])
+                r = micro.dense(it.call(it.getattr(it.getattr(item, "assemble"), "vector"), [fc], {}))
+                tot = [sum((P(r[d * p + i, 0]) for p in range(ra.mesh.npoints)), ZERO) for i in range(d)]
+                return all(is_zero(tot[i] - rho * newv[i] * vol) for i in range(d)), "%s: resultant %s for values %s" % (method_where(cls, "update"), [str(t) for t in tot], [str(v) for v in newv])
+            col.check("C14.O3", "%s resultant after update (%d extra fields)" % (cname, mixed), "after update(values) the nodal forces sum to density * (the new values) * volume, whatever the item was created with", chk)
         cls = it.get("felupe.mechanics._pointload:PointLoad")
         vals = symarray("pl", (2, d))
         pts = [2, 0]
@@ -212,6 +225,15 @@ def run_mass(col):
             if not is_zero(tot - (rho * vol if i == k else ZERO)):
                 bad.append((i, k))
     col.add("C14.O6", "SolidBody mass total", "the mass matrix carries the total mass density * volume in each direction (and nothing between directions)", not bad and M.shape == (np_ * d, np_ * d), str(bad))
+    # a second assembly with another density (keyword, then attribute) carries that density
+    rho2, rho3 = sym("rho2", True), sym("rho3", True)
+    M2 = micro.dense(it.call(it.getattr(it.getattr(body, "assemble"), "mass"), [], dict(density=rho2)))
+    it.setattr(body, "density", rho3)
+    M3 = micro.dense(it.call(it.getattr(it.getattr(body, "assemble"), "mass"), [], {}))
+    tot2 = sum((P(M2[d * a, d * b]) for a in range(np_) for b in range(np_)), ZERO)
+    tot3 = sum((P(M3[d * a, d * b]) for a in range(np_) for b in range(np_)), ZERO)
+    col.add("C14.O6", "SolidBody mass with a changed density", "every assembly carries the density in force at that call: mass(density=rho2) and, after body.density = rho3, mass()",
+            is_zero(tot2 - rho2 * vol) and is_zero(tot3 - rho3 * vol), "mechanics/_solidbody.py SolidBody._mass: totals %s ; %s" % (ring.fmt(tot2, 3), ring.fmt(tot3, 3)))
     col.add("C14.O6", "SolidBody mass symmetric", "symmetric (Gram matrix of the shape functions, hence positive semi-definite)", all(is_zero(P(M[i, j]) - P(M[j, i])) for i in range(M.shape[0]) for j in range(i)))
     # multi-point constraint forces are self-equilibrated
     k = sym("kpen", True)
